@@ -226,6 +226,15 @@ def make_lf(spec, tree_value=None, lengths=None, aln=None):
     lf = sm.make_likelihood_function(tree, **kw)
     with lf.updates_postponed():
         mp = pi_dict(spec)
+        if mp is not None and spec.get("mp_form"):
+            keys = list(mp)
+            keys = keys[::-1] if "reversed" in spec["mp_form"] else keys[1:] + keys[:1]
+            if spec["mp_form"].startswith("DictArray"):
+                from cogent3.util.dict_array import DictArrayTemplate
+
+                mp = DictArrayTemplate(keys).wrap([mp[k] for k in keys])
+            else:
+                mp = {k: mp[k] for k in keys}
         if mp is not None:
             lf.set_motif_probs(mp)  # before the alignment: no motif counting from the data is triggered
         if aln is not None:
@@ -723,6 +732,10 @@ def configs_for(name, model_kw, shape_index, ntips, tier, part):
         if not model_kw:
             for ex in ("eigen", "checked", "pade", "either"):
                 out.append(dict(common, lengths=base_lengths(edges), params=pv, pi=pi, expm=ex))
+            if not eq:
+                # the same motif probabilities in other keyed forms: what counts is the key, not the position
+                for mp_form in ("dict reversed", "DictArray reversed", "DictArray rotated"):
+                    out.append(dict(common, lengths=base_lengths(edges), params=pv, pi=pi, mp_form=mp_form))
             if kind == "nuc" and ntips >= 4:
                 # the same tree written with the children of every node in the opposite order (a tip before a clade with
                 # many distinct site patterns, and the reverse): the order in which children are written is not part of the model
